@@ -107,8 +107,18 @@ func init() {
 		if len(f) > 2 {
 			second = unhex(strings.TrimPrefix(f[2], "-"))
 		}
+		var third []byte
+		if len(f) > 3 {
+			third = unhex(strings.TrimPrefix(f[3], "-"))
+		}
 		done := make(chan string, 1)
-		go func() { done <- fuzzOne(f[0], src, second) }()
+		go func() {
+			if f[0] == "schemaTT" {
+				done <- fuzzTT(src, second, third)
+				return
+			}
+			done <- fuzzOne(f[0], src, second)
+		}()
 		select {
 		case r := <-done:
 			return r
@@ -119,6 +129,25 @@ func init() {
 		}
 		return "?"
 	}
+}
+
+// schemaTT R D P: root R with the types @d := D and @p := P, each added to all three (D typically inherits from @p with allOf):
+// AddType, Check, Validate, Example, GetAST; an error may point into any of the three texts
+func fuzzTT(r, d, p []byte) string {
+	var out []string
+	lim := maxInt(len(r), maxInt(len(d), len(p)))
+	root, sd, sp := js.New("root", r), js.New("@d", d), js.New("@p", p)
+	for _, x := range []*js.Schema{root, sd, sp} {
+		x := x
+		out = append(out, call("AddType", lim, func() error { return x.AddType("@d", sd) }))
+		out = append(out, call("AddType", lim, func() error { return x.AddType("@p", sp) }))
+	}
+	out = append(out, call("Check", lim, func() error { return root.Check() }))
+	out = append(out, call("Validate", lim, func() error { return root.Validate(fjson.New("doc", "{}")) }))
+	out = append(out, call("Example", lim, func() error { _, e := root.Example(); return e }))
+	out = append(out, call("GetAST", lim, func() error { _, e := root.GetAST(); return e }))
+	out = append(out, call("Check", lim, func() error { return sd.Check() }))
+	return strings.Join(out, ";")
 }
 
 func fuzzOne(kind string, src, second []byte) string {
